@@ -221,6 +221,23 @@ int main(int argc, char** argv) {
          if (vf::deadline_hit()) break;
       }
    }
+   // ---- part C: four (thorough: five) LEVEL settings on the log: alternating filter types revisit a type after another one was touched
+   {
+      std::vector<Setting> lv; for (int t = 0; t < 3; ++t) for (int l : {2, 3, 4, 5}) lv.push_back({t, l, 0, 0});
+      for (int n = 4; n <= (th ? 5 : 4); ++n) {
+         vf::Odometer od(std::vector<unsigned>(n, unsigned(lv.size())));
+         while (od.next()) {
+            if (!vf::want_case()) continue;
+            // at least one type set twice with another type in between (A .. B .. A): everything else is covered by the shorter histories
+            bool aba = false; for (int i = 0; i < n && !aba; ++i) for (int j = i + 2; j < n && !aba; ++j) if (lv[od[i]].type == lv[od[j]].type) for (int k = i + 1; k < j; ++k) if (lv[od[k]].type != lv[od[i]].type) aba = true;
+            if (!aba) continue;
+            History h; for (int i = 0; i < n; ++i) h.steps.push_back({0, lv[od[i]]});
+            for (int pol = 0; pol < 3; ++pol) { h.policy = pol; h.policy_pos = 0; h.create_l1_after_policy = false; run(h, "levels"); }
+            vf::nontrivial_by_construction();
+            if (vf::deadline_hit()) break;
+         }
+      }
+   }
    vf::count("evaluations", g_histories); vf::count("states", g_histories); vf::count("transitions", g_deliveries);
    vf::count("message_deliveries", g_deliveries); vf::count("duplicate_settings", g_dup); vf::count("settings_expected_to_throw", g_throw_expected); vf::count("precheck_queries", g_precheck);
    vf::finish();
